@@ -51,8 +51,10 @@ func init() {
 					op.Op = "vacuum"
 				case k < 36:
 					op.Op = "version"
-				case k < 38:
+				case k < 37:
 					op.Op = "recreate"
+				case k < 38:
+					op.Op = "bad-create"
 				case k < 39 && j%2 == 0:
 					op.Op = "common"
 				case k < 39:
@@ -96,6 +98,12 @@ func runC19(x *Exec) {
 		if len(s) > 60 {
 			x.Invalid()
 			return
+		}
+	}
+	hasCommon := false
+	for _, s := range p.Streams {
+		for _, op := range s {
+			hasCommon = hasCommon || op.Op == "common"
 		}
 	}
 	// stream i on connection c, table prefix pfx; write time fixed per connection
@@ -174,6 +182,28 @@ func runC19(x *Exec) {
 					t = w.TableName(c.Name)
 					_, err = c.Exec(c.CreateSQL(t, opts))
 				}
+			case "bad-create":
+				// a CREATE that SQLite refuses (s3db accepts the column list, SQLite does not) must not keep the
+				// name taken: the same name is created properly right afterwards
+				if past || hasCommon {
+					// (a refused CREATE makes SQLite reset the connection's schema: all its s3db tables leave the
+					// by-name registry until SQL touches them again, and a table name shared with other
+					// connections would be up for grabs in between - section 12)
+					continue
+				}
+				bn := w.TableName(c.Name + "bad")
+				bopts := TableOpts{Prefix: pfx + "bad", Columns: "a primary key, b-c", EPN: p.EPN}
+				if _, berr := c.Exec(c.CreateSQL(bn, bopts)); berr == nil {
+					res.err = fmt.Sprintf("op %d: CREATE with columns='a primary key, b-c' reported success", oi)
+					return
+				}
+				bopts.Columns = "a primary key, b"
+				if _, berr := c.Exec(c.CreateSQL(bn, bopts)); berr != nil {
+					res.err = fmt.Sprintf("op %d: after a refused CREATE of the same name a proper CREATE fails: %v", oi, berr)
+					return
+				}
+				_, err = c.Exec("drop table " + bn)
+				c.Query("select count(*) from " + t) // back into the registry (see "common")
 			case "common":
 				// several connections try to create a table of the SAME name: the registry is process-wide, so in
 				// any sequential order exactly one of them succeeds; the name is never dropped during the run
@@ -241,12 +271,6 @@ func runC19(x *Exec) {
 		})
 		if x.Failed() {
 			return
-		}
-	}
-	hasCommon := false
-	for _, s := range p.Streams {
-		for _, op := range s {
-			hasCommon = hasCommon || op.Op == "common"
 		}
 	}
 	x.Bubble(func(w *World) {
